@@ -3,7 +3,7 @@
 without it) in a scratch worktree, then apply it to /repo, run the named checks, and undo it."""
 import json, os, subprocess, sys, shutil, time
 
-seed, pids = sys.argv[1], sys.argv[2:]
+seed, pids = os.path.abspath(sys.argv[1]), sys.argv[2:]
 patch = os.path.join(seed, "patch.diff")
 demo = os.path.join(seed, "demo.py")
 env = dict(os.environ, NUMBA_DISABLE_JIT="1", PYTHONDONTWRITEBYTECODE="1")
